@@ -42,7 +42,7 @@ func unmanagedProjection(d *mcisco.Device) string {
 	fixed := map[string]bool{"manual_acl": true, "capture_acl": true, "mgmt_in": true, "admin-hosts": true}
 	marked := func(s string) bool {
 		return strings.Contains(s, "mgmt_") || strings.Contains(s, "kept") || strings.Contains(s, "Kept") || strings.Contains(s, "MANUAL") ||
-			strings.Contains(s, "ManualSplit") || strings.Contains(s, "AdminPolicy") || strings.Contains(s, "admin-pool")
+			strings.Contains(s, "ManualSplit") || strings.Contains(s, "AdminPolicy") || strings.Contains(s, "admin-pool") || strings.Contains(s, "GETVPN")
 	}
 	for _, a := range d.ACLs {
 		if fixed[a.Name] || marked(a.Name) {
@@ -80,7 +80,7 @@ func unmanagedProjection(d *mcisco.Device) string {
 				// Bindings of managed interfaces may change; keep the rest.
 				sub = nil
 				for _, s := range bl.Sub {
-					if !strings.HasPrefix(s, "ip access-group") && !strings.HasPrefix(s, "crypto map") {
+					if !strings.HasPrefix(s, "ip access-group") && (!strings.HasPrefix(s, "crypto map") || marked(s)) {
 						sub = append(sub, s)
 					}
 				}
